@@ -1901,6 +1901,10 @@ class Exec(object):
             return v if good and self.truth(self.call_closure(args[0], [v.value], line), line) else ResultV("None")
         if name == "unwrap_or_default":
             return v.value if good else 0
+        if name in ("is_some_and", "is_ok_and"):
+            return self.truth(self.call_closure(args[0], [v.value], line), line) if good else False
+        if name == "is_none_or":
+            return self.truth(self.call_closure(args[0], [v.value], line), line) if good else True
         if name in ("clone", "as_ref", "as_mut", "copied", "cloned", "to_owned"):
             return v
         if name in ("iter", "into_iter"):
